@@ -92,6 +92,17 @@ theorem run_T6 (heps : 0 < eps) {ps} (h : Run M gap eps limit none [] 0 ps true)
   have hpM := (h.mem_and_cuts p hp).1
   exact ⟨p, hp, fun x => ⟨hsub x, hanti p hpM q hq hsub x⟩, hle⟩
 
+/-- **stage_reports_optimum** a run of the enumeration loop over the feasible points of a model
+whose objective is nowhere negative, that ended normally, reports something whenever the model is
+feasible - and by `run_T1` the first reported point is a global optimum.  `cn_objective_nonneg` (Props/C03), `major_objective_nonneg` (Props/C01) and
+`minor_objective_nonneg` (Props/C01Minor) discharge `hnonneg` for the three stage models. -/
+theorem stage_reports_optimum (heps : 0 < eps) (hgap : 0 ≤ gap)
+    (hnonneg : ∀ p ∈ M, 0 ≤ p.obj) {ps} (h : Run M gap eps limit none [] 0 ps true)
+    (hfeas : ∃ p, IsArgmin M [] p) : ps ≠ [] := by
+  obtain ⟨p, hp⟩ := hfeas
+  exact run_T1_nonempty heps hgap h ⟨p, hp, hnonneg p hp.1⟩
+
+
 /-- The literal stop test of the code equals the documented one. -/
 theorem stop_test_meaning (heps : 0 < eps) (best obj : Rat) :
     rejected gap eps best obj = true ↔ (1 + gap) * best + eps ≤ obj := rejected_iff heps
